@@ -98,6 +98,7 @@ struct State {
 	void *main_fake = nullptr;
 	int cur = -1, prev = -1;
 	int64_t steps = 0;
+	int64_t xsteps = 0;   // steps outside canonical sections: what the policies' windows and change points count
 	SchedOutcome out;
 	std::exception_ptr exc;
 	size_t explicit_pos = 0;
@@ -109,6 +110,7 @@ struct State {
 	std::string misuse;
 	bool abandoned = false;
 	std::string abandon_why;
+	int canonical = 0;
 	int live = 0;      // unfinished fibers
 	int unjoined = 0;  // created and not yet joined (their accesses are ordered only by the join)
 };
@@ -258,6 +260,7 @@ void deliver_spurious(int fid) {
 
 int pick(const std::vector<int> &E) {
 	const SchedConfig &c = S->cfg;
+	if (S->canonical) return E.back();
 	auto has = [&](int id) { for (int e : E) if (e == id) return true; return false; };
 	auto minid = [&]() { return E.front(); };
 	if (c.policy == "explicit") {
@@ -278,7 +281,7 @@ int pick(const std::vector<int> &E) {
 		return E[S->rng.below(E.size())];
 	}
 	if (c.policy == "stall") {
-		if (S->steps >= c.stall_start && S->steps < c.stall_start + c.stall_len && E.size() > 1 && has(c.stall_victim)) {
+		if (S->xsteps >= c.stall_start && S->xsteps < c.stall_start + c.stall_len && E.size() > 1 && has(c.stall_victim)) {
 			std::vector<int> E2;
 			for (int e : E) if (e != c.stall_victim) E2.push_back(e);
 			if (S->ctx) S->ctx->count("fault:stall_step");
@@ -290,7 +293,7 @@ int pick(const std::vector<int> &E) {
 		int best = E.front();
 		for (int e : E) if (S->fibers[(size_t)e]->prio > S->fibers[(size_t)best]->prio) best = e;
 		for (size_t i = 0; i < S->pct_points.size(); i++)
-			if (S->pct_points[i] == S->steps) {
+			if (S->pct_points[i] == S->xsteps) {
 				S->fibers[(size_t)best]->prio = (uint64_t)(c.pct_depth - (int)i);   // below every initial priority
 				S->pct_hit++;
 				if (S->ctx) S->ctx->count("fault:pct_priority_change");
@@ -344,6 +347,9 @@ void Sched::misuse(const std::string &what) {
 	if (S->ctx) S->ctx->log.ev("misuse %s", what.c_str());
 }
 
+void Sched::begin_canonical() { if (S) S->canonical++; }
+void Sched::end_canonical() { if (S && S->canonical > 0) S->canonical--; }
+
 void Sched::abandon(const std::string &why) {
 	if (!S || S->cur < 0) return;
 	S->abandoned = true;
@@ -373,7 +379,7 @@ SchedOutcome Sched::run(const SchedConfig &cfg, RunCtx *ctx, std::function<void(
 		if (S->abort_run) { S->out.kind = SchedOutcome::MISUSE; S->out.detail = S->misuse; break; }
 		if (S->abandoned) { S->out.kind = SchedOutcome::ABANDONED; S->out.detail = S->abandon_why; break; }
 		// spurious wake-ups (legal-but-unusual behaviour), bounded per run
-		if (cfg.spurious && cfg.policy != "explicit" && S->out.spurious_delivered < cfg.spurious_max) {
+		if (cfg.spurious && cfg.policy != "explicit" && !S->canonical && S->out.spurious_delivered < cfg.spurious_max) {
 			std::vector<int> waiting;
 			for (auto &fp : S->fibers) if (!fp->finished && fp->pending == OP_CWAIT_WAKE && !fp->woken) waiting.push_back(fp->id);
 			if (!waiting.empty() && S->rng.chance(cfg.spurious_p)) deliver_spurious(waiting[S->rng.below(waiting.size())]);
@@ -408,18 +414,21 @@ SchedOutcome Sched::run(const SchedConfig &cfg, RunCtx *ctx, std::function<void(
 		int ch = pick(E);
 		bool prev_enabled = false;
 		for (int e : E) if (e == S->prev) prev_enabled = true;
-		if (S->prev >= 0 && ch != S->prev && prev_enabled) S->out.preemptions++;
+		if (S->prev >= 0 && ch != S->prev && prev_enabled && !S->canonical) S->out.preemptions++;
 		Fiber &f = *S->fibers[(size_t)ch];
 		if (ctx) {
 			int oid = -1;
 			if (f.pending == OP_LOCK || f.pending == OP_UNLOCK || f.pending == OP_TRYLOCK) oid = mutex_of(f.obj).id;
 			else if (f.pending == OP_CWAIT_ENTER || f.pending == OP_CWAIT_WAKE || f.pending == OP_BCAST || f.pending == OP_SIGNAL) oid = cond_of(f.obj).id;
-			ctx->log.ev("s%lld f%d %s o%d t%d", (long long)S->steps, ch, op_name(f.pending), oid, f.target);
+			ctx->log.ev("s%lld%s f%d %s o%d t%d", (long long)S->steps, S->canonical ? "c" : "", ch, op_name(f.pending), oid, f.target);
 		}
-		S->out.trace.push_back(ch);
-		int64_t v = ch; th = fnv1a(&v, sizeof v, th);
-		int pk = (int)f.pending; th = fnv1a(&pk, sizeof pk, th);
+		if (!S->canonical) {
+			S->out.trace.push_back(ch);
+			int64_t v = ch; th = fnv1a(&v, sizeof v, th);
+			int pk = (int)f.pending; th = fnv1a(&pk, sizeof pk, th);
+		}
 		S->steps++;
+		if (!S->canonical) S->xsteps++;
 		S->prev = ch;
 		resume(ch);
 	}
